@@ -482,6 +482,17 @@ fn sweep_cases(seed: u64, ms: impl Iterator<Item = usize>) -> Vec<Case> {
 }
 
 pub fn run(ctx: &Ctx, rep: &Report) -> Meta {
+    // the same checks with all workers released from one barrier in a cold process (shared state under contention)
+    {
+        let cases = sweep_cases(ctx.seed ^ 0xC0, [2usize, 20, 5, 33, 1, 24, 9, 17].into_iter());
+        let r = contend("contention", ctx.workers.max(4), ctx.tier.pick(1, 4), |t, round| {
+            let c = &cases[(t * 7 + round * 3) % cases.len()];
+            check(rep, "contention", c)
+        });
+        if let Err(f) = r {
+            rep.add_violation(f);
+        }
+    }
     let sweep = match ctx.tier {
         Tier::Quick => sweep_cases(ctx.seed, (4..=40).chain([63, 64, 65])),
         Tier::Thorough => sweep_cases(ctx.seed, (4..=130).chain([255, 256, 257])),
